@@ -74,9 +74,15 @@ class CancelOnShutdownExecutor(CanCustomizeBind, Executor):
         Note that there is no guarantee that the cancel will succeed, and only a single
         attempt is made to cancel any future.
         """
+        # Mark as shut down before taking our own lock: submit() holds the
+        # shutdown helper's lock while it takes self._lock, so taking them in the
+        # opposite order here could deadlock against a concurrent submit().
+        # Once this returns, any submit() which was accepted has already
+        # recorded its future.
+        if not self._shutdown():
+            return
+
         with self._lock:
-            if not self._shutdown():
-                return
             metrics.EXEC_INPROGRESS.labels(
                 type="cancel_on_shutdown", executor=self._name
             ).dec()
